@@ -16,7 +16,7 @@ import (
 // fieldCase2 is a v2 environmental object obtained by decoding a vector of the right
 // shape (which fixes the groups that are present) and assigning the exported fields.
 type fieldCase2 struct {
-	B      [6]int `json:"base"`     // AV AC Au C I A
+	B      [6]int `json:"base"` // AV AC Au C I A
 	HasT   bool   `json:"has_temporal"`
 	T      [3]int `json:"temporal"` // E RL RC
 	HasE   bool   `json:"has_environmental"`
